@@ -534,7 +534,9 @@ def run_history(case, ctx, rng):
                 Lx = 2.0
             else:
                 mesh, (Lx, Ly, h) = _sims.small_mesh(rng, dim, et, size=1.3)
-            E = rng.uniform(150.0, 270.0, size=mesh.Ne) if case.get("het") else 210.0
+            # (one value per element of THE group of elements: a recombined mesh that kept some triangles has two groups, for which a
+            # per-element array is not expressible)
+            E = rng.uniform(150.0, 270.0, size=mesh.Ne) if (case.get("het") and len(mesh.Get_list_groupElem(dim)) == 1) else 210.0
             mat = Models.Elastic.Isotropic(dim, E=E, v=0.3, planeStress=False, thickness=1.0)
             pfm = Models.PhaseField(mat, split, regu, Gc=6e-3, l0=0.3, solver=solver)
             simu = Simulations.PhaseField(mesh, pfm)
